@@ -41,6 +41,10 @@ CHECKS = {
                 text="Geometry (SR): for ALL real coordinates of two fragments (2-4 atoms + attachment point each) and every requested length > 0, z3 shows the new bond has that length and points along A's attachment vector, both fragments keep all pairwise distances and their signed volume, with optimize_rotation the pose is the plain pose with B turned about the new bond (assume/guarantee chain), exactly (anti)parallel attachment vectors along 4 rational directions with symbolic lengths go through the REAL rotation code, the product does not change when the RNG returns different numbers, and _optimize_rotation returns the scanned pose of minimal loss. Constitution (XH): charges in [-3,3], multiplicities in [1,4], Optional overrides incl. 0 symbolic; atom and bond multisets, new bond, parents/indices, partial charges, untouched sources over 4 fragment kinds x attachment host x options; combine: every ordered selection of attachment points.",
                 note="Reals, not floats. rotation_matrix_from_vectors is replaced by its C11 contract in the generic-pose geometry goals and _optimize_rotation by 'rotation about the given axis' (the real functions are analysed separately); the compiled kernel is replaced by its contract. The XH constitution part is selector-bound.",
                 design="3/C12"),
+    "C15": dict(engine="XH", technique="CrossHair symbolic execution of yield_bfsd/yield_bfs/is_bond_in_ring/adjacency queries with symbolic edge bits, start, direction and bond types, compared with an independent reference; _node_match/_edge_match as pure functions over symbolic ints; matcher cells enumerated by the solver [selector-bound]",
+                text="Every labelled graph on 4 atoms (quick; plain traversal also on every 5-atom graph) / 5 atoms (thorough), every start atom, direction and bond in both orientations, on Connectivity, Molecule and ConformerEnsemble: traversal yields each other atom of the component once, in non-decreasing true shortest-path distance; with a direction exactly the atoms behind that neighbour; ring iff not a bridge; adjacency queries and bonded valence agree with the bond list. Matching: for every host graph, 8 connected patterns and element assignments over {Unknown,C,N} the returned maps are exactly the brute-force induced embeddings, each once. _node_match/_edge_match: wildcard, reflexivity, element exclusion, NotConnected for all symbolic field values.",
+                note="Selector-bound: the solver enumerates a finite space of small graphs; graphs on 6-40 atoms of the quantifier are not covered. The networkx matcher runs untraced on the concrete cell chosen by the solver (2.5 s/path under the tracer); its node/edge predicates are executed symbolically on their own.",
+                design="3/C15"),
     "C14": dict(engine="XH+SHP", technique="CrossHair symbolic execution of the real ConformerEnsemble/Conformer code on a shape-level numpy model with symbolic extents (n_conformers up to 1000), plus real-numpy content scenarios; z3 decides each path",
                 text="One inductive step from an arbitrary rectangular state: for every constructor branch, each of 17 operations, all n_conformers in [0,1000] (symbolic, linear integer arithmetic over array extents), n_atoms 0..3 and every conformer index, the three parallel arrays keep matching extents and every conformer view reads coordinates and charges. On real numpy (extents <= 3): writes through a conformer change row i only, iteration (nested, interleaved, suspended) visits each conformer once in order, grown ensembles dump and serialise.",
                 note="The shape model (engine/shapenp.py) is validated against numpy on ~10k concrete shape cases per run; array *content* is only checked at concrete small extents; a symbolic conformer index bypasses __getitem__'s match statement (CrossHair artefact) and constructs the Conformer directly.",
